@@ -5,7 +5,8 @@ pub mod c04;
 pub mod c06;
 pub mod c13;
 pub mod c15;
+pub mod c18;
 
 pub fn all() -> Vec<&'static dyn Check> {
-    vec![&c03::C03, &c04::C04, &c06::C06, &c13::C13, &c15::C15]
+    vec![&c03::C03, &c04::C04, &c06::C06, &c13::C13, &c15::C15, &c18::C18]
 }
